@@ -244,9 +244,9 @@ impl AuthRxBuilder {
             && self.reason_string.is_none()
             && self.user_property.is_none();
 
-        if !shortened
-            && (self.authentication_method.is_none() || self.authentication_data.is_none())
-        {
+        // Only the Authentication Method is mandatory; a server may send AUTH without
+        // Authentication Data.
+        if !shortened && self.authentication_method.is_none() {
             Err(MandatoryPropertyMissing.into())
         } else {
             Ok(())
